@@ -643,6 +643,33 @@ func (sg *skGen) genGeneralHistory(maxN int, exact bool) {
 			sg.ensureValues(h)
 			sg.encchk(h, r.Bool(50)) // Encode is a read-only operation too
 		}
+		if sg.prop == "C15" && r.Bool(3) {
+			// a refused decode leaves the target in an unspecified state; Clear() must make it new again
+			if _, isTwin := twin[h]; !isTwin {
+				e := sg.sh.sks[h]
+				var bs []byte
+				if e.exact != nil && r.Bool(60) { // an encoding without the exact statistics
+					sg.line("K 21 1 %s", sg.storeSpec(nonCollapsing))
+					sg.fillSketch(21, r.Range(1, 8), 60)
+					bs, _ = sg.bytesOf(21, false)
+				} else if full, ok := sg.bytesOf(h, false); ok && len(full) > 3 {
+					bs = full[:r.Range(1, len(full)-1)] // cut somewhere
+				}
+				if len(bs) > 0 && strings.HasPrefix(sg.line("decm %d %s", h, showBytes(bs)), "err") {
+					sg.line("clear %d", h)
+					t := 10 + h
+					spec := e.storeKind
+					if e.n > 0 {
+						spec = fmt.Sprintf("%s %d", e.storeKind, e.n)
+					}
+					sg.line("K %d 1 %s%s", t, spec, x)
+					twin[h] = t
+					sg.obs(h)
+					sg.ensureValues(t)
+					sg.line("same %d %d", h, t)
+				}
+			}
+		}
 		if sg.prop == "C10" && r.Bool(12) {
 			// encode / decode round trip of the exact variant: statistics restored exactly
 			sg.ensureValues(h)
